@@ -14,17 +14,17 @@ B = gkdi.B
 RULE = (
     "complete product of: plaintext length {0,1,15,16,17,31,32,33,111,112,127,128,239,240,255,256,65519,65520,65535,65536,65537} (quick: 8 of them) x SID shape (n sub-authorities 1..15 x value pattern {all 0, all 2^32-1, mixed}; quick: 4 shapes) "
     "x key configuration (4 KDF hashes x {nonce, DH RFC5114, ECDH_P256, ECDH_P384}) x clock {mid-interval, first/last tick of an L2, L1, L0 interval} (quick: 4) x layout {in-envelope, trailing} x API {sync, async}. "
-    "nonce mode: offline KeyCache with the root key; public-key mode: protect through the reference DC answering 'not authorised' (group public key only), unprotect with the offline cache. trailing layout: "
+    "nonce mode: offline KeyCache with the root key, or seed keys fetched from the reference DC (whose envelope at L2'=31 carries / omits the L2 key); public-key mode: protect through the reference DC answering 'not authorised' (group public key only), unprotect with the offline cache. trailing layout: "
     "DPAPINGBlob.unpack(blob).pack(blob_in_envelope=False) fed back to unprotect. Oracle: unprotect(protect(x)) == x and the independent reference decryptor opens the same blob from the root key alone and the blob names the interval of the virtual clock. "
     "Nonce-mode cells are additionally run twice in a row on one KeyCache shared along the whole shard (cache history x clock x SID). Every cell is distinct by construction; non-trivial = all (each runs protect, two unprotects and the reference decryptor)."
 )
 ASSUME = ["ref/cms.py + ref/gkdi.py calibrated on the 16 Windows vectors", "clock seam time.time_ns; DC with scripted security context for the public-key configurations"]
-BOUND = {"quick": "8 lengths x 4 SID shapes x 16 configs x 4 clocks x 2 layouts x 2 APIs", "thorough": "21 lengths x 45 SID shapes x 16 configs x 7 clocks x 2 x 2 (SID shapes cycled over the other dimensions for DH)"}
+BOUND = {"quick": "8 lengths x 4 SID shapes x 24 configs x 4 clocks x 2 layouts x 2 APIs", "thorough": "21 lengths x 45 SID shapes x 24 configs x 7 clocks x 2 x 2 (SID shapes cycled over the other dimensions for DH)"}
 
 LENS_T = [0, 1, 15, 16, 17, 31, 32, 33, 111, 112, 127, 128, 239, 240, 255, 256, 65519, 65520, 65535, 65536, 65537]  # incl. lengths whose ciphertext+tag (len+16) sits on a DER length-form boundary
 LENS_Q = [0, 1, 16, 33, 112, 240, 256, 65521, 65535, 65537]
 HASHES = ["SHA1", "SHA256", "SHA384", "SHA512"]
-MODES = ["nonce", "DH", "ECDH_P256", "ECDH_P384"]
+MODES = ["nonce", "DH", "ECDH_P256", "ECDH_P384", "nonce-dc", "nonce-dc-noL2"]  # nonce-dc*: seed keys fetched from the reference DC (noL2: it omits the L2 key at L2'=31)
 L0 = 364
 CLOCKS_T = [L0 * 1024 * B + 5 * 32 * B + 7 * B + 123456, (L0 * 1024 + 5 * 32 + 8) * B, (L0 * 1024 + 5 * 32 + 8) * B - 1, (L0 * 1024 + 6 * 32) * B, (L0 * 1024 + 6 * 32) * B - 1, (L0 + 1) * 1024 * B, (L0 + 1) * 1024 * B - 1]
 CLOCKS_T.append(CLOCKS_T[0] + 1024 * B)  # same (L1, L2) in the next L0
@@ -64,6 +64,11 @@ def roundtrip(rk: gkdi.RootKey, mode: str, sid: str, pt: bytes, ft: int, api: st
         try:
             if mode == "nonce":
                 blob = bytes(run(prot(pt, sid, root_key_identifier=rk.rkid, cache=cache)))
+            elif mode.startswith("nonce-dc"):
+                dc = refdc.DC([rk], now=gkdi.interval(ft))
+                dc.l2_at_31 = mode == "nonce-dc"
+                with transport.network(dc), secctx.scripted_client(_ctx):
+                    blob = bytes(run(prot(pt, sid, server="dc", username="u", password="p", auth_protocol="ntlm")))
             else:
                 dc = refdc.DC([rk], now=gkdi.interval(ft), authorised=False)
                 with transport.network(dc), secctx.scripted_client(_ctx):
@@ -92,7 +97,7 @@ def roundtrip(rk: gkdi.RootKey, mode: str, sid: str, pt: bytes, ft: int, api: st
         return ("reference-decryptor.differs", {}), blob
     if (kid.l0, kid.l1, kid.l2) != gkdi.interval(ft):
         return ("key-position", {"named": [kid.l0, kid.l1, kid.l2], "expected": gkdi.interval(ft)}), blob
-    if bool(kid.flags & 1) != (mode != "nonce"):
+    if bool(kid.flags & 1) != (not mode.startswith("nonce")):
         return ("key-mode", {"flags": kid.flags, "mode": mode}), blob
     return None, blob
 
@@ -101,14 +106,14 @@ def shards(tier: str, seed: int):
     out = []
     for h in HASHES:
         for m in MODES:
-            parts = {"nonce": 1, "DH": 6, "ECDH_P256": 2, "ECDH_P384": 3}[m] * (1 if tier == "quick" else 4)
+            parts = {"nonce": 1, "DH": 6, "ECDH_P256": 2, "ECDH_P384": 3, "nonce-dc": 1, "nonce-dc-noL2": 1}[m] * (1 if tier == "quick" else 4)
             for p in range(parts):
                 out.append(["cfg", h, m, p, parts])
     return out
 
 
 def mk_root(seed: int, h: str, m: str) -> gkdi.RootKey:
-    return seams.make_root(seams.Drbg(("C01", seed, h, m)), h, "DH" if m == "nonce" else m)
+    return seams.make_root(seams.Drbg(("C01", seed, h, m)), h, "DH" if m.startswith("nonce") else m)
 
 
 def plaintext(seed: int, n: int) -> bytes:
@@ -119,7 +124,7 @@ def cells(tier: str, mode: str):
     lens = LENS_Q if tier == "quick" else LENS_T
     clocks = CLOCKS_Q if tier == "quick" else CLOCKS_T
     sids = sid_shapes(tier)
-    if tier == "quick" or mode == "nonce":
+    if tier == "quick" or mode.startswith("nonce"):
         yield from itertools.product(lens, sids, clocks, ("sync", "async"))
     else:
         # public-key configurations cost 5-15 ms per call: every (length x clock x api), SID shapes cycled so that each shape occurs with each length
